@@ -18,33 +18,127 @@ def ks (new : List Tok) : List Key := new.reverse.map Tok.key
 theorem ks_append (a b : List Tok) : ks (a ++ b) = ks b ++ ks a := by simp [ks]
 @[simp] theorem ks_cons (c : Tok) (a : List Tok) : ks (c :: a) = ks a ++ [c.key] := by simp [ks]
 
-/-- a step from `s` to `s'` that consumed exactly `new` and left rules and aliases alone -/
+/-- tokens not yet consumed (alias-free reading) -/
+def PS.pending (s : PS) : Nat := (if s.cur.isSome then 1 else 0) + s.rest.length
+
+def isStarter (t : Tok) : Bool := t.type == .rule || t.type == .define
+
+/-- `RULE`/`DEFINE` tokens not yet consumed -/
+def PS.starters (s : PS) : Nat := (s.cur.toList ++ s.rest).countP isStarter
+
+/-- no alias definition contains a rule keyword -/
+def NoKwA (A : Aliases) : Prop := ∀ p ∈ A, ∀ t ∈ p.2, t.type.isRuleKeyword = false
+
+/-- a step from `s` to `s'` that consumed exactly `new` and left rules and aliases alone; it never
+    adds unread tokens (without aliases) nor unread `RULE`/`DEFINE` tokens -/
 structure Adv (s s' : PS) (new : List Tok) : Prop where
   consumed : s'.consumed = new ++ s.consumed
   rules : s'.rules = s.rules
   aliases : s'.aliases = s.aliases
+  pot : s.aliases = [] → s'.pending + new.length ≤ s.pending
+  starters : NoKwA s.aliases → s'.starters + new.countP isStarter ≤ s.starters
 
-theorem Adv.refl (s : PS) : Adv s s [] := ⟨rfl, rfl, rfl⟩
+theorem Adv.refl (s : PS) : Adv s s [] := ⟨rfl, rfl, rfl, fun _ => by simp, fun _ => by simp⟩
 
 theorem Adv.trans {s s1 s2 : PS} {n1 n2 : List Tok} (a : Adv s s1 n1) (b : Adv s1 s2 n2) :
     Adv s s2 (n2 ++ n1) :=
-  ⟨by rw [b.consumed, a.consumed, List.append_assoc], by rw [b.rules, a.rules], by rw [b.aliases, a.aliases]⟩
+  ⟨by rw [b.consumed, a.consumed, List.append_assoc], by rw [b.rules, a.rules], by rw [b.aliases, a.aliases],
+   fun h => by
+     have h1 := a.pot h
+     have h2 := b.pot (by rw [a.aliases, h])
+     simp only [List.length_append]; omega,
+   fun h => by
+     have h1 := a.starters h
+     have h2 := b.starters (by rw [a.aliases]; exact h)
+     simp only [List.countP_append]; omega⟩
 
-/-- changing only the stream position -/
-theorem Adv.of_pos {s : PS} {c : Option Tok} {r : List Tok} : Adv s { s with cur := c, rest := r } [] :=
-  ⟨rfl, rfl, rfl⟩
+theorem isStarter_kw {t : Tok} (h : isStarter t = true) : t.type.isRuleKeyword = true := by
+  simp only [isStarter, Bool.or_eq_true, beq_iff_eq] at h
+  rcases h with h | h <;> rw [h] <;> rfl
 
-theorem advance_adv {s s' : PS} (h : s.advance = .ok s') : Adv s s' [] := by
+theorem countP_starter_nokw {l : List Tok} (h : ∀ t ∈ l, t.type.isRuleKeyword = false) : l.countP isStarter = 0 := by
+  rw [List.countP_eq_zero]
+  intro t ht hs
+  have := isStarter_kw hs
+  rw [h t ht] at this; cases this
+
+/-- skipping raw tokens: the new position is a suffix of the old stream -/
+theorem Adv.of_suffix {s : PS} {c c' : Tok} {pre rest' : List Tok} (hc : s.cur = some c)
+    (h : c :: s.rest = pre ++ c' :: rest') : Adv s { s with cur := some c', rest := rest' } [] := by
+  refine ⟨rfl, rfl, rfl, fun _ => ?_, fun _ => ?_⟩
+  · have := congrArg List.length h
+    simp only [PS.pending, hc, List.length_cons, List.length_append] at this ⊢
+    simp; omega
+  · have := congrArg (List.countP isStarter) h
+    simp only [PS.starters, hc, Option.toList_some, List.cons_append, List.nil_append, List.countP_append] at this ⊢
+    simp only [List.countP_nil, Nat.add_zero]
+    omega
+
+/-- re-flagging the current token -/
+theorem Adv.of_flag {s : PS} {c : Tok} (hc : s.cur = some c) :
+    Adv s { s with cur := some { c with aliased := true } } [] := by
+  refine ⟨rfl, rfl, rfl, fun _ => ?_, fun _ => ?_⟩
+  · simp [PS.pending, hc]
+  · simp [PS.starters, hc, List.countP_cons, isStarter]
+
+theorem advance_adv {s s' : PS} (h : s.advance = .ok s') :
+    Adv s s' [] ∧ (s.aliases = [] → s'.pending = s.rest.length) ∧
+      (NoKwA s.aliases → s'.starters ≤ s.rest.countP isStarter) := by
   unfold PS.advance at h
   split at h
-  · cases h; exact ⟨rfl, rfl, rfl⟩
-  · split at h
-    · split at h
-      · split at h
+  · rename_i hr
+    cases h
+    refine ⟨⟨rfl, rfl, rfl, fun _ => by simp [PS.pending], fun _ => by simp [PS.starters, hr]⟩,
+      fun _ => by simp [PS.pending, hr], fun _ => by simp [PS.starters, hr]⟩
+  · rename_i n r hr
+    have key : ∀ (b : Tok) (more : List Tok), (NoKwA s.aliases → (b :: more).countP isStarter ≤ (n :: r).countP isStarter) →
+        (s.aliases = [] → more.length = r.length) →
+        Adv s { s with cur := some b, rest := more } [] ∧
+          (s.aliases = [] → ({ s with cur := some b, rest := more } : PS).pending = s.rest.length) ∧
+          (NoKwA s.aliases → ({ s with cur := some b, rest := more } : PS).starters ≤ s.rest.countP isStarter) := by
+      intro b more hst hlen
+      refine ⟨⟨rfl, rfl, rfl, fun ha => ?_, fun hk => ?_⟩, fun ha => ?_, fun hk => ?_⟩
+      · have := hlen ha
+        simp only [PS.pending, hr, List.length_cons, List.length_nil]
+        simp; split <;> omega
+      · have := hst hk
+        simp only [PS.starters, hr, Option.toList_some, List.cons_append, List.nil_append, List.countP_nil] at this ⊢
+        cases s.cur <;> simp [List.countP_cons] at this ⊢ <;> omega
+      · have := hlen ha
+        simp [PS.pending, hr, this]; omega
+      · have := hst hk
+        simpa [PS.starters, hr] using this
+    split at h
+    · rename_i hid
+      split at h
+      · rename_i body hl
+        split at h
         · cases h
-        · cases h; exact ⟨rfl, rfl, rfl⟩
-      · cases h; exact ⟨rfl, rfl, rfl⟩
-    · cases h; exact ⟨rfl, rfl, rfl⟩
+        · rename_i b more hbm
+          cases h
+          refine key b more (fun hk => ?_) (fun ha => ?_)
+          · rw [← hbm, List.countP_append]
+            have hmem : ∃ k', (k', body) ∈ s.aliases := by
+              clear hbm
+              revert hl
+              generalize s.aliases = A
+              intro hl
+              induction A with
+              | nil => cases hl
+              | cons p ps ih =>
+                obtain ⟨a, bb⟩ := p
+                simp only [List.lookup] at hl
+                split at hl
+                · cases hl; exact ⟨a, by simp⟩
+                · obtain ⟨k', hk'⟩ := ih hl; exact ⟨k', by simp [hk']⟩
+            obtain ⟨k', hm⟩ := hmem
+            rw [countP_starter_nokw (hk _ hm)]
+            simp [List.countP_cons]
+          · rw [ha] at hl; cases hl
+      · cases h
+        exact key n r (fun _ => Nat.le_refl _) (fun _ => rfl)
+    · cases h
+      exact key n r (fun _ => Nat.le_refl _) (fun _ => rfl)
 
 theorem consume_post {t : TT} {s s' : PS} {c : Tok} (h : consume t s = .ok (c, s')) :
     Adv s s' [c] ∧ c.type = t ∧ s.cur = some c := by
@@ -58,8 +152,36 @@ theorem consume_post {t : TT} {s s' : PS} {c : Tok} (h : consume t s = .ok (c, s
       rw [bind_ok] at h
       obtain ⟨s1, h1, h⟩ := h
       cases h
-      have := advance_adv h1
-      exact ⟨⟨by simpa using this.consumed, this.rules, this.aliases⟩, by simpa using hne, hc⟩
+      obtain ⟨this, hp, hs⟩ := advance_adv h1
+      refine ⟨⟨by simpa using this.consumed, this.rules, this.aliases, fun ha => ?_, fun hk => ?_⟩,
+        by simpa using hne, hc⟩
+      · have := hp ha
+        simp only at this
+        simp only [PS.pending] at this
+        simp only [PS.pending, hc, Option.isSome_some, ↓reduceIte, List.length_cons, List.length_nil]
+        omega
+      · have := hs hk
+        simp only at this
+        simp only [PS.starters, hc, Option.toList_some, List.cons_append, List.nil_append, List.countP_cons,
+          List.countP_nil] at this ⊢
+        omega
+
+theorem skipText_spec (rest : List Tok) : ∀ (c : Tok) (acc sk : List Tok) (c' : Tok) (rest' : List Tok),
+    skipText c rest acc = some (sk, c', rest') → ∃ pre, c :: rest = pre ++ c' :: rest' := by
+  induction rest with
+  | nil =>
+    intro c acc sk c' rest' h
+    unfold skipText at h
+    split at h
+    · cases h; exact ⟨[], rfl⟩
+    · cases h
+  | cons n r ih =>
+    intro c acc sk c' rest' h
+    unfold skipText at h
+    split at h
+    · cases h; exact ⟨[], rfl⟩
+    · obtain ⟨pre, hp⟩ := ih n _ _ _ _ h
+      exact ⟨c :: pre, by rw [hp]; rfl⟩
 
 theorem key_of_type {c : Tok} {t : TT} (h : c.type = t) (h1 : t ≠ .identifier) (h2 : t ≠ .int) :
     c.key = kOf t := by
